@@ -6,7 +6,7 @@ import vlib
 
 HARNESS = ["aml/c11_harness_test.go", "aml/c11_random_test.go"]
 PKG = "device/acpi/aml"
-TRIGGERS = ["D1", "D1b", "D2", "D3", "D5", "D7", "D8", "D9"]           # ids that have a trigger predicate in AmlNs.tla
+TRIGGERS = ["D1", "D1b", "D2", "D2c", "D3", "D5", "D7", "D8", "D9"]           # ids that have a trigger predicate in AmlNs.tla
 # findings without a trigger of their own: their constructs are excluded through these
 VIA = {"D4": ["D3"], "D6": ["D5", "D7"]}
 ASSUME = [
@@ -26,7 +26,7 @@ def load_findings(ctx):
     kf = ctx.open_findings()
     fixed = " ".join(x for x in ctx.kf.get("fixed", []) if "property=C11" in x)
     if not kf:
-        p = os.path.join(vlib.VERIF, "findings", "C11.json")
+        p = os.environ.get("VERIF_C11_FINDINGS") or os.path.join(vlib.VERIF, "findings", "C11.json")
         if os.path.exists(p):
             with open(p) as f:
                 kf = [e for e in json.load(f) if e.get("property") == "C11"]
@@ -131,7 +131,7 @@ def describe(toks):
 
 
 def run_go(ctx, g_in, g_out, t_out, n_random, r_in, r_out, excl, timeout=1500):
-    env = {"C11_IN": g_in, "C11_OUT": g_out, "C11_PAR": 4, "C11_N": n_random, "C11_RAND_OUT": t_out,
+    env = {"C11_IN": g_in, "C11_OUT": g_out, "C11_PAR": max(1, min(4, vlib.maxpar())), "C11_N": n_random, "C11_RAND_OUT": t_out,
            "C11_OPEN": ",".join(excl), "C11_REPRO_IN": r_in, "C11_REPRO_OUT": r_out}
     rc, out, wall = ctx.gotest("kernel", PKG, HARNESS, "^TestVerifC11(Cases|Random|Repro)$", env=env, timeout=timeout)
     if rc != 0:
@@ -213,37 +213,46 @@ def run(ctx):
     profiles = ["Forms", "Kinds", "Calls", "Tables"]
 
     # ---- leg M (+ emission for G): the generator's state graph is the tree of program prefixes; LoaderSound and Refines on all of it
+    mp = vlib.maxpar()                                   # shared-machine cap on parallelism
+    pool = max(1, min(4 if q else 2, mp // 2))
+    per = max(1, min(3 if q else 8, mp // pool))
+
     def mc(p):
         cases = os.path.join(ctx.work, "cases_%s.ndjson" % p)
-        ctx.model_check(d, "MCAmlNs", "MCAmlNs%s%s" % (p, tier), workers=3 if q else 8, env={"CASES": cases}, timeout=1500 if q else 3000)
+        ctx.model_check(d, "MCAmlNs", "MCAmlNs%s%s" % (p, tier), workers=per, env={"CASES": cases}, timeout=1500 if q else 3000)
         return cases
-    with concurrent.futures.ThreadPoolExecutor(max_workers=4 if q else 2) as ex:
+    with concurrent.futures.ThreadPoolExecutor(max_workers=pool) as ex:
         case_files = list(ex.map(mc, profiles))
     # design mutants: wrong parser designs, and the pinned design on the trigger constructs of the open findings, must be rejected
     bugs = ["Bug_MergeIntoObject", "Bug_ArgcFromSyncBits"] if q else \
            ["Bug_MergeIntoObject", "Bug_UnitsNotAccumulated", "Bug_ArgcFromSyncBits", "Bug_CallsInFirstPass"]
-    opens = [x for x in (["Open_D1"] if q else ["Open_D1", "Open_D1b", "Open_D2", "Open_D8"]) if x[5:] in excl]
-    with concurrent.futures.ThreadPoolExecutor(max_workers=4) as ex:
+    opens = [x for x in (["Open_D1"] if q else ["Open_D1", "Open_D1b", "Open_D2", "Open_D3", "Open_D8"]) if x[5:] in excl]
+    with concurrent.futures.ThreadPoolExecutor(max_workers=max(1, min(4, mp // 2))) as ex:
         list(ex.map(lambda b: ctx.expect_model_violation(d, "MCAmlNs", "MCAmlNs" + b, workers=2, timeout=900), bugs + opens))
 
-    # ---- leg G input: all emitted programs (thorough) or a seeded sample (quick)
-    progs, emitted = [], 0
+    # ---- leg G input: all emitted programs (thorough) or a seeded sample (quick); lines are passed on unparsed
+    n_progs, emitted = 0, 0
     rnd = random.Random(ctx.seed)
-    for p, cf in zip(profiles, case_files):
-        cs = read_cases(cf)
-        emitted += len(cs)
-        ctx.cov["legs"]["MCAmlNs%s%s" % (p, tier)]["programs_emitted"] = len(cs)
-        if q and len(cs) > 2500:
-            cs = rnd.sample(cs, 2500)
-        progs += cs
-    if not progs:
+    g_in = os.path.join(ctx.work, "g_in.ndjson")
+    with open(g_in, "w") as gf:
+        for p, cf in zip(profiles, case_files):
+            lines = []
+            if os.path.exists(cf):
+                with open(cf) as f:
+                    lines = [l for l in f if l.strip()]
+            emitted += len(lines)
+            ctx.cov["legs"]["MCAmlNs%s%s" % (p, tier)]["programs_emitted"] = len(lines)
+            if q and len(lines) > 2500:
+                lines = rnd.sample(lines, 2500)
+            gf.writelines(lines)
+            n_progs += len(lines)
+    if not n_progs:
         raise vlib.Broken("the generator model emitted no program")
-    g_in, g_out = os.path.join(ctx.work, "g_in.ndjson"), os.path.join(ctx.work, "g_trace.ndjson")
+    g_out = os.path.join(ctx.work, "g_trace.ndjson")
     t_out = os.path.join(ctx.work, "t_trace.ndjson")
     r_in, r_out = os.path.join(ctx.work, "r_in.ndjson"), os.path.join(ctx.work, "r_trace.ndjson")
-    write_progs(g_in, progs)
     write_progs(r_in, [e["reproducer"]["toks"] for e in findings])
-    n_random = 48 if q else 1200
+    n_random = 90 if q else 1000
     run_go(ctx, g_in, g_out, t_out, n_random, r_in, r_out, excl)
 
     # ---- leg V: one pool of monitor processes judges both traces (random programs carry ids > 10^6)
@@ -257,16 +266,17 @@ def run(ctx):
                         break
                     f.write(b)
     viol = judge_trace(ctx, both, "G+T", excl, parallel=6 if q else 16)
-    ctx.cov["legs"]["G+T"]["programs_G"] = len(progs)
+    ctx.cov["legs"]["G+T"]["programs_G"] = n_progs
     ctx.cov["legs"]["G+T"]["programs_T"] = n_random
     for name, path in (("G-generated", g_out), ("T-random", t_out)):
         ns = 0
         with open(path) as f:
             for line in f:
-                e = json.loads(line)
-                if any(t["k"] in ("open", "method", "decl", "field") for t in e["toks"]):
-                    ctx.distinct(hashlib.sha1(json.dumps(e["toks"], sort_keys=True).encode()).hexdigest())
-                if ns < 2 and len(e["toks"]) > 6:
+                toks = line.rsplit('"toks":', 1)[1]          # Go writes the keys sorted: id, obs, toks
+                if re.search(r'"k":"(open|method|decl|field)"', toks):
+                    ctx.distinct(hashlib.sha1(toks.encode()).hexdigest())
+                if ns < 2 and len(line) > (1500 if name.startswith("T") else 700):
+                    e = json.loads(line)
                     ctx.sample({"leg": name, "program": describe(e["toks"])[:700], "res": e["obs"]["res"],
                                 "objects_in_tree": len(e["obs"]["ns"]), "invocations_in_tree": len(e["obs"]["calls"])})
                     ns += 1
